@@ -1,7 +1,12 @@
 package main
 
 import (
+	"encoding/json"
 	"fmt"
+	"go/token"
+	"go/types"
+	"os"
+	"path/filepath"
 	"sort"
 	"strings"
 
@@ -105,7 +110,12 @@ func ruleBounds(c *Ctx, r *Report) {
 		}
 		return all[i].pos.Column < all[j].pos.Column
 	})
-	proved := 0
+	reviewed, rerr := loadReviewed(c.VerifDir)
+	if rerr != nil {
+		r.Unk(rule, "reviewed-safe-table", "", "cannot read spec/reviewed_safe.json: "+rerr.Error())
+	}
+	used := map[string]bool{}
+	proved, nReviewed := 0, 0
 	for _, s := range all {
 		r.Sites++
 		if s.ok {
@@ -113,7 +123,596 @@ func ruleBounds(c *Ctx, r *Report) {
 			continue
 		}
 		f := strings.TrimPrefix(s.pos.Filename, c.Repo+"/")
-		r.Bad(rule, fmt.Sprintf("%s:%s", strings.ReplaceAll(strings.ReplaceAll(s.fn, modPath+"/", ""), modPath+".", "dtls."), s.what), fmt.Sprintf("%s:%d", f, s.pos.Line), "unproven: "+siteShape(s.ins))
+		fnName := strings.ReplaceAll(strings.ReplaceAll(s.fn, modPath+"/", ""), modPath+".", "dtls.")
+		shape := siteShape(s.ins)
+		k := fnName + "|" + s.what + "|" + shape + "|" + s.goal
+		if rv, ok := reviewed[k]; ok {
+			nReviewed++
+			used[k] = true
+			r.OKTrivial("bounds-reviewed", fmt.Sprintf("%s:%s", fnName, s.what), fmt.Sprintf("%s:%d", f, s.pos.Line), rv.Verdict+": "+rv.Reason)
+			continue
+		}
+		r.Bad(rule, fmt.Sprintf("%s:%s", fnName, s.what), fmt.Sprintf("%s:%d", f, s.pos.Line), "index/slice not proven in range (unproven sub-goals "+s.goal+" of: index>=0,index<len | lo>=0,hi>=lo,hi<=cap | len>=n) and not covered by the reviewed-safe table: "+shape)
 	}
-	r.OK(rule, "summary", "", fmt.Sprintf("%d of %d sites proved", proved, len(all)))
+	stale := 0
+	for k := range reviewed {
+		if !used[k] {
+			stale++
+		}
+	}
+	r.Extra["bounds_sites"] = len(all)
+	r.Extra["bounds_proved"] = proved
+	r.Extra["bounds_reviewed_safe"] = nReviewed
+	r.Extra["reviewed_safe_entries_unused"] = stale
+	r.OK(rule, "summary", "", fmt.Sprintf("%d index/slice/encoding-binary sites in %d attacker-reachable functions: %d proved by the linear prover, %d reviewed-safe (table), rest reported", len(all), nf, proved, nReviewed))
+	r.Floor(rule, len(all), 1000)
+}
+
+type reviewedSite struct {
+	Function string `json:"function"`
+	Kind     string `json:"kind"`
+	Shape    string `json:"shape"`
+	Unproven string `json:"unproven"`
+	Verdict  string `json:"verdict"`
+	Reason   string `json:"reason"`
+}
+
+func loadReviewed(verif string) (map[string]reviewedSite, error) {
+	b, err := os.ReadFile(filepath.Join(verif, "spec", "reviewed_safe.json"))
+	if err != nil {
+		return nil, err
+	}
+	var t struct {
+		Sites []reviewedSite `json:"sites"`
+	}
+	if err := json.Unmarshal(b, &t); err != nil {
+		return nil, err
+	}
+	out := map[string]reviewedSite{}
+	for _, s := range t.Sites {
+		out[s.Function+"|"+s.Kind+"|"+s.Shape+"|"+s.Unproven] = s
+	}
+	return out, nil
+}
+
+// rulePanicClasses: nil map-element dereference, unchecked type assertion, explicit panic and
+// division by a non-constant in the attacker-reachable scope.
+func rulePanicClasses(c *Ctx, r *Report) {
+	scope := c.attackerScope(r, "panic-classes")
+	nLookup, nTA, nPanic, nDiv := 0, 0, 0, 0
+	for _, fn := range c.Fns {
+		if !scope[fn] {
+			continue
+		}
+		for _, b := range fn.Blocks {
+			for _, in := range b.Instrs {
+				switch x := in.(type) {
+				case *ssa.Lookup:
+					mt, ok := x.X.Type().Underlying().(*types.Map)
+					if !ok {
+						continue
+					}
+					if _, isPtr := mt.Elem().Underlying().(*types.Pointer); !isPtr {
+						continue
+					}
+					nLookup++
+					c.checkMapDeref(r, fn, x)
+				case *ssa.TypeAssert:
+					if x.CommaOk {
+						continue
+					}
+					nTA++
+					key := fmt.Sprintf("%s:%s", short(fn), typeShort(x.AssertedType))
+					if why := c.typeAssertSafe(x); why != "" {
+						r.OK("type-assert", key, c.ipos(x), why)
+					} else if rs, ok := otherReviewed(c, "type-assert", short(fn), typeShort(x.AssertedType)); ok {
+						r.OKTrivial("type-assert", key, c.ipos(x), "reviewed: "+rs)
+					} else {
+						r.Bad("type-assert", key, c.ipos(x), "type assertion without comma-ok on a value whose dynamic type is not established on this path: panics on a mismatching input: "+shapeOf(x.X, 0))
+					}
+				case *ssa.Panic:
+					if mi, ok := x.X.(*ssa.MakeInterface); ok {
+						if str, ok := constString(mi.X); ok && strings.HasPrefix(str, "blocking select") {
+							continue // go/ssa's unreachable arm of a select without default
+						}
+					}
+					nPanic++
+					if rs, ok := otherReviewed(c, "explicit-panic", short(fn), ""); ok {
+						r.OKTrivial("explicit-panic", short(fn), c.ipos(x), "reviewed: "+rs)
+					} else {
+						r.Bad("explicit-panic", short(fn), c.ipos(x), "explicit panic reachable from the network entry points")
+					}
+				case *ssa.BinOp:
+					if x.Op == token.QUO || x.Op == token.REM {
+						if _, _, isInt := isIntLike(x.Type()); !isInt {
+							continue
+						}
+						if k, isC := constInt(x.Y); isC && k != 0 {
+							continue
+						}
+						nDiv++
+						c.boundsInit()
+						a := getAn(fn)
+						facts := append([]cons{}, a.blockFacts(x.Block())...)
+						facts = append(facts, a.inv...)
+						d := a.linOf(x.Y, 0)
+						if a.prove(facts, d.add(konst(1), -1), 0) {
+							r.OK("div-by-zero", short(fn)+":"+shapeOf(x.Y, 0), c.ipos(x), "divisor proven >= 1")
+						} else if rs, ok := otherReviewed(c, "div-by-zero", short(fn), shapeOf(x.Y, 0)); ok {
+							r.OKTrivial("div-by-zero", short(fn)+":"+shapeOf(x.Y, 0), c.ipos(x), "reviewed: "+rs)
+						} else {
+							r.Bad("div-by-zero", short(fn)+":"+shapeOf(x.Y, 0), c.ipos(x), "integer division/modulo by a value not proven non-zero")
+						}
+					}
+				case *ssa.Call:
+					name := calleeName(&x.Call)
+					if strings.HasSuffix(name, "OrPanic") || strings.HasPrefix(name, "regexp.Must") {
+						nPanic++
+						if rs, ok := otherReviewed(c, "explicit-panic", short(fn), name); ok {
+							r.OKTrivial("explicit-panic", short(fn)+":"+name, c.ipos(x), "reviewed: "+rs)
+						} else {
+							r.Bad("explicit-panic", short(fn)+":"+name, c.ipos(x), "call to a panicking helper reachable from the network entry points")
+						}
+					}
+				}
+			}
+		}
+	}
+	r.Extra["panic_class_sites"] = map[string]int{"pointer-map-lookups": nLookup, "unchecked-type-asserts": nTA, "explicit-panics": nPanic, "divisions": nDiv}
+	r.Sites += nLookup + nTA + nPanic + nDiv
+}
+
+// otherReviewed looks up the reviewed-safe table for non-bounds panic classes.
+func otherReviewed(c *Ctx, rule, fn, what string) (string, bool) {
+	if c.otherRev == nil {
+		c.otherRev = map[string]string{}
+		b, err := os.ReadFile(filepath.Join(c.VerifDir, "spec", "reviewed_safe.json"))
+		if err == nil {
+			var t struct {
+				Other []struct{ Rule, Function, What, Reason string } `json:"other_sites"`
+			}
+			if json.Unmarshal(b, &t) == nil {
+				for _, o := range t.Other {
+					c.otherRev[o.Rule+"|"+o.Function+"|"+o.What] = o.Reason
+				}
+			}
+		}
+	}
+	rs, ok := c.otherRev[rule+"|"+fn+"|"+what]
+	return rs, ok
+}
+
+// typeAssertSafe: a non-comma-ok assertion is fine when the operand's dynamic type is
+// established: it is a MakeInterface of that type, or the result of a sync.Pool Get whose New
+// returns that type (pools are typed by construction in this code base).
+func (c *Ctx) typeAssertSafe(ta *ssa.TypeAssert) string {
+	for _, l := range c.Origins(ta.X, 0) {
+		switch x := l.(type) {
+		case *ssa.MakeInterface:
+			if types.Identical(x.X.Type(), ta.AssertedType) {
+				continue
+			}
+			return ""
+		case *ssa.Call:
+			if calleeName(&x.Call) == "(*sync.Pool).Get" {
+				continue
+			}
+			return ""
+		default:
+			return ""
+		}
+	}
+	return "operand's dynamic type is fixed (constructed with that type / sync.Pool of that type)"
+}
+
+// checkMapDeref: m[k] with pointer elements must not be dereferenced on a path where the
+// element may be absent (nil).
+func (c *Ctx) checkMapDeref(r *Report, fn *ssa.Function, lk *ssa.Lookup) {
+	const rule = "nil-map-deref"
+	var val ssa.Value = lk
+	var okV ssa.Value
+	if lk.CommaOk {
+		val = nil
+		for _, ref := range *lk.Referrers() {
+			if ex, ok := ref.(*ssa.Extract); ok {
+				if ex.Index == 0 {
+					val = ex
+				} else {
+					okV = ex
+				}
+			}
+		}
+		if val == nil {
+			return
+		}
+	}
+	// dereferences of val
+	var derefs []ssa.Instruction
+	var visit func(v ssa.Value, d int)
+	visit = func(v ssa.Value, d int) {
+		if d > 3 || v.Referrers() == nil {
+			return
+		}
+		for _, ref := range *v.Referrers() {
+			switch x := ref.(type) {
+			case *ssa.FieldAddr:
+				if x.X == v {
+					derefs = append(derefs, x)
+				}
+			case *ssa.UnOp:
+				if x.Op == token.MUL && x.X == v {
+					derefs = append(derefs, x)
+				}
+			case *ssa.Phi:
+				visit(x, d+1)
+			}
+		}
+	}
+	visit(val, 0)
+	if len(derefs) == 0 {
+		return
+	}
+	key := short(fn) + ":" + shapeOf(lk, 0)
+	assume := func(v ssa.Value) (Val, bool) {
+		if okV != nil && v == okV {
+			return vBool(false), true
+		}
+		if v == val {
+			return vNil(true), true
+		}
+		return unknown, false
+	}
+	isDeref := map[ssa.Instruction]ssa.Value{}
+	for _, d := range derefs {
+		switch x := d.(type) {
+		case *ssa.FieldAddr:
+			isDeref[d] = x.X
+		case *ssa.UnOp:
+			isDeref[d] = x.X
+		}
+	}
+	bad := false
+	w := &Walk{Fn: fn, Assume: assume}
+	w.Visit = func(in ssa.Instruction, env map[*ssa.Phi]Val) bool {
+		if base, ok := isDeref[in]; ok {
+			if v := w.eval(base, env); v.Kind == 2 && v.B {
+				if !bad {
+					r.Bad(rule, key, c.ipos(in), "element of a map with pointer values is dereferenced on a path where the key may be absent (nil pointer dereference)")
+				}
+				bad = true
+			}
+		}
+		return true
+	}
+	w.After(lk)
+	if !bad {
+		r.OK(rule, key, c.ipos(lk), "every dereference is guarded by a presence/nil test")
+	}
+}
+
+// lenOfFieldLoad matches len(x.F) for the given owner/field.
+func isLenOfField(v ssa.Value, owner, field string) bool {
+	call, ok := v.(*ssa.Call)
+	if !ok {
+		return false
+	}
+	b, ok := call.Call.Value.(*ssa.Builtin)
+	return ok && b.Name() == "len" && isFieldLoad(call.Call.Args[0], owner, field)
+}
+
+// ruleBufferLimits (C08-2): the two buffering limits the property names are enforced before
+// every growth, and the reassembly counters move exactly with inserts and deletes.
+func ruleBufferLimits(c *Ctx, r *Report) {
+	// ---- Conn.encryptedPackets <= maxAppDataPacketQueueSize
+	const rule = "queue-limit"
+	grow := 0
+	for _, st := range c.StoresTo("dtls.Conn", "encryptedPackets") {
+		if isNilConst(st.Val) {
+			continue // drained
+		}
+		fn := st.Fn
+		r.Sites += len(fn.Blocks)
+		isAppend := false
+		for _, l := range []ssa.Value{st.Val} {
+			if call, ok := l.(*ssa.Call); ok && calleeName(&call.Call) == "builtin:append" && isFieldLoad(call.Call.Args[0], "dtls.Conn", "encryptedPackets") {
+				isAppend = true
+			}
+		}
+		if !isAppend {
+			r.Bad(rule, short(fn)+":store", c.ipos(st.Instr), "Conn.encryptedPackets is replaced by a value that is neither nil nor an append to itself")
+			continue
+		}
+		grow++
+		// find the limit comparison
+		var cmp *ssa.BinOp
+		var limit int64
+		for _, b := range fn.Blocks {
+			for _, in := range b.Instrs {
+				if bo, ok := in.(*ssa.BinOp); ok && (bo.Op == token.GEQ || bo.Op == token.GTR) && isLenOfField(bo.X, "dtls.Conn", "encryptedPackets") {
+					if k, isC := constInt(bo.Y); isC {
+						cmp, limit = bo, k
+						if bo.Op == token.GTR {
+							limit = k + 1
+						}
+					}
+				}
+			}
+		}
+		if cmp == nil {
+			r.Bad(rule, short(fn), c.ipos(st.Instr), "queue of undecryptable records grows without a comparison of its length against a constant limit")
+			continue
+		}
+		w := (&Walk{Fn: fn, Assume: assumeAll(atomAssume{mValue(cmp), vBool(true)})}).FromEntry()
+		r.Check(!w.Reached[st.Instr] && limit <= 100 && limit > 0, rule, short(fn), c.ipos(st.Instr), fmt.Sprintf("growth unreachable once len >= %d", limit), fmt.Sprintf("queue can grow although the limit comparison is true, or the limit (%d) exceeds the documented 100 records", limit))
+		res := c.mustHold("dtls.Conn.lock", 2, []ssa.Instruction{st.Instr})
+		r.Check(len(res.Failures) == 0, rule, short(fn)+":locked", c.ipos(st.Instr), "test and growth under Conn.lock", "length test and append are not under Conn.lock (check-then-act race lets the queue exceed the limit)")
+	}
+	r.Floor(rule, grow, 1)
+
+	// ---- FragmentBuffer limits and counters
+	const rule2 = "reassembly-limit"
+	tFB, tFr := "internal/fragmentbuffer.FragmentBuffer", "internal/fragmentbuffer.fragments"
+	push := c.need(r, rule2, "(*internal/fragmentbuffer.FragmentBuffer).Push")
+	if push == nil {
+		return
+	}
+	r.Sites += len(push.Blocks)
+	// all map inserts into cache / fragmentByOffset
+	type upd struct {
+		fn *ssa.Function
+		in *ssa.MapUpdate
+		f  string
+	}
+	var ups []upd
+	for _, fn := range c.fnsOfPkg("internal/fragmentbuffer") {
+		for _, b := range fn.Blocks {
+			for _, in := range b.Instrs {
+				if mu, ok := in.(*ssa.MapUpdate); ok {
+					if isFieldLoad(mu.Map, tFB, "cache") {
+						ups = append(ups, upd{fn, mu, "cache"})
+					} else if isFieldLoad(mu.Map, tFr, "fragmentByOffset") {
+						ups = append(ups, upd{fn, mu, "fragmentByOffset"})
+					} else if _, isAlloc := mu.Map.(*ssa.MakeMap); !isAlloc {
+						r.Note(rule2, short(fn)+":other-map", c.ipos(mu), "map insert into another map")
+					}
+				}
+			}
+		}
+	}
+	r.Floor(rule2+":inserts", len(ups), 2)
+	// inserts happen only below Push, after the limit test
+	var limitCmps []*ssa.BinOp
+	consts := map[int64]bool{}
+	for _, b := range push.Blocks {
+		for _, in := range b.Instrs {
+			if bo, ok := in.(*ssa.BinOp); ok && (bo.Op == token.GEQ || bo.Op == token.GTR) {
+				if k, isC := constInt(bo.Y); isC && k >= 100 {
+					limitCmps = append(limitCmps, bo)
+					consts[k] = true
+				}
+			}
+		}
+	}
+	r.Check(len(limitCmps) == 2 && consts[2000000] && consts[1000], rule2, short(push)+":limits", c.pos(push.Pos()), "size limit 2000000 bytes and count limit 1000 fragments compared in Push", fmt.Sprintf("Push no longer compares against both documented limits (2 MB, 1000 fragments): found %d comparisons %v", len(limitCmps), consts))
+	for _, u := range ups {
+		key := short(u.fn) + ":" + u.f
+		if u.fn == push {
+			continue
+		}
+		// the inserting function is reached only through Push, and Push calls it only when under the limits
+		sites := c.CallsToName(short(u.fn))
+		okCallers := len(sites) > 0
+		for _, s := range sites {
+			if s.Fn != push {
+				okCallers = false
+				continue
+			}
+			for _, cmp := range limitCmps {
+				w := (&Walk{Fn: push, Assume: assumeAll(atomAssume{mValue(cmp), vBool(true)})}).FromEntry()
+				if w.Reached[s.Call] {
+					okCallers = false
+				}
+			}
+		}
+		r.Check(okCallers, rule2, key+":after-limit", c.ipos(u.in), "insert reachable only through Push after both limit tests passed", "a fragment can be stored without passing the reassembly limits (size / count)")
+	}
+	// an insert into fragmentByOffset happens only when the offset is not yet stored, together with the accounting
+	for _, u := range ups {
+		if u.f != "fragmentByOffset" {
+			continue
+		}
+		fn := u.fn
+		key := short(fn)
+		var present ssa.Value
+		for _, b := range fn.Blocks {
+			for _, in := range b.Instrs {
+				if lk, ok := in.(*ssa.Lookup); ok && lk.CommaOk && isFieldLoad(lk.X, tFr, "fragmentByOffset") {
+					for _, ref := range *lk.Referrers() {
+						if ex, ok := ref.(*ssa.Extract); ok && ex.Index == 1 {
+							present = ex
+						}
+					}
+				}
+			}
+		}
+		if present == nil {
+			r.Bad(rule2, key+":insert-once", c.ipos(u.in), "fragments are stored without first testing whether that offset is already stored (duplicates are counted again and the message never completes)")
+			continue
+		}
+		w := (&Walk{Fn: fn, Assume: assumeAll(atomAssume{mValue(present), vBool(true)})}).FromEntry()
+		r.Check(!w.Reached[u.in], rule2, key+":insert-once", c.ipos(u.in), "an already stored offset is not stored again", "a fragment offset that is already stored can be stored again")
+		// accounting moves with the insert: same guard
+		for _, cnt := range []struct{ owner, f string }{{tFr, "fragmentsLength"}, {tFB, "totalBufferSize"}, {tFB, "totalFragmentCount"}} {
+			found := false
+			for _, b := range fn.Blocks {
+				for _, in := range b.Instrs {
+					st, ok := in.(*ssa.Store)
+					if !ok {
+						continue
+					}
+					if o, f, _, ok := fieldOfAddr(st.Addr); ok && o == cnt.owner && f == cnt.f {
+						found = true
+						sameGuard := !w.Reached[in] && (in.Block() == u.in.Block() || in.Block().Dominates(u.in.Block()) || u.in.Block().Dominates(in.Block()))
+						bo, isAdd := st.Val.(*ssa.BinOp)
+						r.Check(sameGuard && isAdd && bo.Op == token.ADD, rule2, key+":accounting:"+cnt.f, c.ipos(in), cnt.f+" increases exactly when a new fragment is stored", cnt.f+" is adjusted on a path that does not store a new fragment (a retransmitted fragment is counted again: the completeness test fragmentsLength == handshakeLength never holds, or the limits drift)")
+					}
+				}
+			}
+			r.Check(found, rule2, key+":accounting-present:"+cnt.f, c.ipos(u.in), "counter maintained", cnt.f+" is not increased when a fragment is stored")
+		}
+	}
+	// deletes give the bytes and the count back
+	for _, fn := range c.fnsOfPkg("internal/fragmentbuffer") {
+		for _, ci := range callsIn(fn, nameIs("builtin:delete")) {
+			call := ci.(*ssa.Call)
+			if !isFieldLoad(call.Call.Args[0], tFB, "cache") {
+				continue
+			}
+			for _, f := range []string{"totalBufferSize", "totalFragmentCount"} {
+				ok := false
+				for _, b := range fn.Blocks {
+					for _, in := range b.Instrs {
+						if st, isSt := in.(*ssa.Store); isSt {
+							if o, ff, _, okF := fieldOfAddr(st.Addr); okF && o == tFB && ff == f {
+								if bo, isSub := st.Val.(*ssa.BinOp); isSub && bo.Op == token.SUB && (in.Block() == call.Block() || in.Block().Dominates(call.Block())) {
+									ok = true
+								}
+							}
+						}
+					}
+				}
+				r.Check(ok, rule2, short(fn)+":delete-returns:"+f, c.ipos(call), f+" decreased before the entry is deleted", "a reassembly entry is deleted without giving "+f+" back: the buffer limit is eventually hit with an empty buffer (endpoint stops accepting handshake messages)")
+			}
+		}
+	}
+}
+
+// ruleDropNotFail (C08-3): decode failures are dropped; ErrInvalidPacketLength keeps the read loop alive.
+func ruleDropNotFail(c *Ctx, r *Report) {
+	const rule = "decode-errors-dropped"
+	if fn := c.need(r, rule, "(*dtls.Conn).classifyReadLoopError"); fn != nil {
+		r.Sites += len(fn.Blocks)
+		actions := c.enumConsts("", "readLoopErrorAction")
+		// errors.Is(err, recordlayer.ErrInvalidPacketLength) == true  => readLoopContinue
+		isInvalidLen := func(v ssa.Value) bool {
+			call, ok := v.(*ssa.Call)
+			if !ok || calleeName(&call.Call) != "errors.Is" {
+				return false
+			}
+			u, ok := call.Call.Args[1].(*ssa.UnOp)
+			if !ok {
+				return false
+			}
+			g, ok := u.X.(*ssa.Global)
+			return ok && g.Name() == "ErrInvalidPacketLength"
+		}
+		w := (&Walk{Fn: fn, Assume: assumeAll(
+			atomAssume{isInvalidLen, vBool(true)},
+			atomAssume{mCall("errors.As"), vBool(false)},
+		)}).FromEntry()
+		good := len(w.Returns) > 0
+		for _, ro := range w.Returns {
+			if k, ok := constInt(ro.Raw[0]); !ok || k != actions["readLoopContinue"] {
+				good = false
+			}
+		}
+		r.Check(good, rule, short(fn)+":ErrInvalidPacketLength", c.pos(fn.Pos()), "undecodable datagram -> readLoopContinue", "a datagram that cannot be split into records stops or closes the read loop instead of being dropped")
+		// a received fatal alert / close_notify closes
+		var fatalAtom = func(v ssa.Value) bool {
+			call, ok := v.(*ssa.Call)
+			return ok && strings.HasSuffix(calleeName(&call.Call), "alertError).IsFatalOrCloseNotify")
+		}
+		w2 := (&Walk{Fn: fn, Assume: assumeAll(atomAssume{mCall("errors.As"), vBool(true)}, atomAssume{fatalAtom, vBool(true)})}).FromEntry()
+		good = len(w2.Returns) > 0
+		for _, ro := range w2.Returns {
+			if k, ok := constInt(ro.Raw[0]); !ok || k != actions["readLoopCloseAndStop"] {
+				good = false
+			}
+		}
+		r.Check(good, "alert-closes", short(fn), c.pos(fn.Pos()), "fatal alert / close_notify -> readLoopCloseAndStop", "a received fatal alert or close_notify does not close the connection")
+	}
+	// header / fragment decode failures are "handled, no error"
+	if fn := c.need(r, rule, "(*dtls.Conn).bufferHandshakeRecord"); fn != nil {
+		pushes := findCalls(fn, nameHasSuffix("FragmentBuffer).Push"))
+		if len(pushes) == 1 {
+			w := (&Walk{Fn: fn, Assume: failAssumption(errResult(pushes[0]))}).After(pushes[0])
+			good := len(w.Returns) > 0
+			for _, ro := range w.Returns {
+				res := retResults(ro.Ret)
+				handled, isC := constBool(res[1])
+				if !(isZeroStruct(res[0]) && isC && handled) {
+					good = false
+				}
+			}
+			r.Check(good, rule, short(fn)+":push-error", c.ipos(pushes[0]), "reassembly error -> (no outcome, handled)", "a malformed handshake fragment produces an outcome or is passed on instead of being dropped")
+		} else {
+			r.Unk(rule, short(fn), c.pos(fn.Pos()), "FragmentBuffer.Push call not found")
+		}
+	}
+}
+
+// rulePacketQueueProgress (C08): a consumer of the listener's packet ring either consumes the
+// head packet or leaves an error that a retry can get past.
+func rulePacketQueueProgress(c *Ctx, r *Report) {
+	const rule = "queue-progress"
+	fn := c.need(r, rule, "(*internal/net.PacketBuffer).ReadFrom")
+	if fn == nil {
+		return
+	}
+	r.Sites += len(fn.Blocks)
+	tPB := "internal/net.PacketBuffer"
+	// the region where a head packet was selected: after the load of b.packets[b.read]
+	var advance []ssa.Instruction
+	for _, b := range fn.Blocks {
+		for _, in := range b.Instrs {
+			if st, ok := in.(*ssa.Store); ok {
+				if o, f, _, ok := fieldOfAddr(st.Addr); ok && o == tPB && f == "read" {
+					advance = append(advance, in)
+				}
+			}
+		}
+	}
+	var head ssa.Instruction
+	for _, b := range fn.Blocks {
+		for _, in := range b.Instrs {
+			if ia, ok := in.(*ssa.IndexAddr); ok && isFieldLoad(ia.X, tPB, "packets") && isFieldLoad(ia.Index, tPB, "read") {
+				head = ia
+			}
+		}
+	}
+	if head == nil || len(advance) == 0 {
+		r.Unk(rule, short(fn), c.pos(fn.Pos()), "head selection / cursor advance not found")
+		return
+	}
+	n := 0
+	for _, b := range fn.Blocks {
+		ret, ok := b.Instrs[len(b.Instrs)-1].(*ssa.Return)
+		if !ok || !head.Block().Dominates(b) {
+			continue
+		}
+		// returns after a head packet was selected
+		adv := false
+		for _, a := range advance {
+			if instrDominates(a, ret) {
+				adv = true
+			}
+		}
+		res := retResults(ret)
+		errV := res[len(res)-1]
+		// io.ErrShortBuffer is retryable with a bigger buffer: allowed without advancing
+		short1 := false
+		if u, ok := errV.(*ssa.UnOp); ok {
+			if g, ok := u.X.(*ssa.Global); ok && g.Name() == "ErrShortBuffer" {
+				short1 = true
+			}
+		}
+		n++
+		key := fmt.Sprintf("%s:return%d", short(fn), n)
+		if adv || short1 {
+			r.OK(rule, key, c.ipos(ret), "cursor advanced (or retryable short-buffer error)")
+		} else {
+			r.Bad(rule, key, c.ipos(ret), "ReadFrom returns an error for the head packet without advancing the read cursor: every later read fails the same way (a zero-length datagram makes bytes.Buffer.Read return io.EOF and wedges the connection)")
+		}
+	}
+	r.Floor(rule, n, 2)
 }
